@@ -25,7 +25,7 @@ KeyText(cont, arg) ==
      [] cont = "long"  -> lk
      [] OTHER -> IF arg.s # 0 /\ Len(arg.l) > 0 THEN sk \o <<44>> \o lk ELSE IF arg.s # 0 THEN sk ELSE lk
 \* default value printed: optional argument whose destination type prints defaults (or explicitly switched)
-PrintsDefault(arg) == ~arg.mand /\ (IF arg.printdef = "dflt" THEN arg.kind \in {"int", "str", "dbl", "level"} ELSE arg.printdef = "yes")
+PrintsDefault(arg) == ~arg.mand /\ (IF arg.printdef = "dflt" THEN arg.kind \in {"int", "str", "dbl", "level", "valint"} ELSE arg.printdef = "yes")
 EntryOf(cont, arg, toks) ==
    [cap |-> IF arg.mand THEN "m" ELSE "o", key |-> KeyText(cont, arg), toks |-> toks,
     dflt |-> PrintsDefault(arg), check |-> Len(arg.checks) > 0, cons |-> Len(arg.req) + Len(arg.exc) > 0,
